@@ -419,6 +419,36 @@ def ptTags (s : String) : List String :=
   (if num "q" > 0 then ["pt-qcurve"] else []) ++ (if num "a" > 0 then ["contour-all-offcurve"] else []) ++
   (if num "s" > 0 then ["seam-offcurves-" ++ toString (min (num "s") 6)] else [])
 
+/-! ### build histories (`h=` in the input, `hr=` / `rep=` in the observation)
+
+`L=` of the input is the state the documented behaviour of the containers leaves after the history (a refused call
+changes nothing); the implementation must REPORT exactly that (`rep=`: name, `len()`, names of `iter()` per layer),
+every call must be accepted / refused as stated (the error variant is logged only), and the specification compares
+the LOADED font with that reported state. -/
+
+/-- the outcome written at the end of every history op -/
+def histExpected (toks : List String) : List String :=
+  (splitNE ((field toks "h").getD "") ";").map fun op => (op.splitOn ",").getLast?.getD "?"
+
+/-- ok / err / some / none: the class of an outcome (the variant after `:` is not compared) -/
+def outcomeClass (s : String) : String := (s.splitOn ":").head?.getD s
+
+/-- what the containers must report for the described font, in the `rep=` syntax of the harness -/
+def printReported (f : Font) : String :=
+  "|".intercalate (f.layers.map fun l =>
+    hexS l.name ++ ":" ++ toString l.glyphs.length ++ ":" ++ "+".intercalate (l.glyphs.map fun g => hexS g.name))
+
+/-- distribution tags: which kinds of calls the history holds, refused ones with their error kind -/
+def histTags (toks : List String) : List String :=
+  let ops := splitNE ((field toks "h").getD "") ";"
+  if ops.isEmpty then [] else
+  dedup (["history"] ++ ops.map fun op =>
+    let fs := op.splitOn ","
+    let code := fs.head?.getD "?"
+    let exp := fs.getLast?.getD "?"
+    if exp = "ok" ∨ exp = "some" then "call-" ++ code
+    else "refused-" ++ code ++ "-" ++ ((exp.splitOn ":").getLast?.getD exp))
+
 def firstDiff (a b : List String) : String :=
   match (a.zip b).find? (fun e => e.1 ≠ e.2) with
   | some e => "model " ++ (e.1.take 300).toString ++ " impl " ++ (e.2.take 300).toString
@@ -429,14 +459,15 @@ def outClass {α : Type} : Out α → String
   | .err _ => "err"
   | .panic _ => "panic"
 
-def run (inp obs : List String) : Verdict :=
+def runCore (inp obs : List String) : Verdict :=
   let toks := inp.drop 1
   let pre := (field obs "pre").getD ""
   match parseFont toks pre with
   | none => { agree := false, model := "unparsable-input" }
   | some f =>
     let o := (field toks "o").getD "?"
-    let tags := tagsOf f o ++ ["target-" ++ (field toks "t").getD "absent"] ++ ptTags ((field obs "pt").getD "")
+    let tags := tagsOf f o ++ ["target-" ++ (field toks "t").getD "absent"] ++ ptTags ((field obs "pt").getD "") ++
+      histTags toks
     let saveObs := (field obs "save").getD "?"
     let loadObs := (field obs "load").getD "?"
     let cls (s : String) : String := if s.startsWith "err" then "err" else s
@@ -477,5 +508,23 @@ def run (inp obs : List String) : Verdict :=
       { agree := cls saveObs = outClass r,
         spec := [if saveObs = "panic" then "save-panic" else if saveObs = "ok" then "model-rejects" else "save-failed"],
         tags := tags, model := "save=" ++ outClass r }
+
+/-- `runCore`, and on top of it: the containers accept / refuse every call of the history as documented and report
+    the described state (a disagreement of the correspondence; the specification verdict is kept as it is) -/
+def run (inp obs : List String) : Verdict :=
+  let v := runCore inp obs
+  let toks := inp.drop 1
+  match parseFont toks ((field obs "pre").getD "") with
+  | none => v
+  | some f =>
+    let hrObs := splitNE ((field obs "hr").getD "") ";"
+    let histAgree := (histExpected toks).map outcomeClass = hrObs.map outcomeClass
+    let repObs := (field obs "rep").getD "?"
+    if !histAgree then
+      { v with agree := false,
+               model := "history: expected " ++ ";".intercalate (histExpected toks) ++ " impl " ++ ";".intercalate hrObs }
+    else if repObs ≠ printReported f then
+      { v with agree := false, model := "reported: model " ++ printReported f ++ " impl " ++ repObs }
+    else v
 
 end Driver.C01
